@@ -14,6 +14,7 @@ from __future__ import annotations
 import ast
 from fractions import Fraction
 
+from . import loops
 from .model import AnalysisError, ClassInfo, ExternalClass, FunctionInfo, ModuleInfo
 from .terms import (
     FRESH,
@@ -160,6 +161,7 @@ class Interp:
         self.loop_counter = 0
         self.exprs_evaluated = 0
         self.unknown_values = 0
+        self.vtab = {}
 
     # ------------------------------------------------------------------ events
     def event(self, kind, node=None, st=None, **kw):
@@ -1036,7 +1038,11 @@ class Interp:
         # exit state
         out = st
         cl = (cterm.labels if cterm is not None else frozenset()) | (it.labels if it is not None else frozenset())
+        coupled = self._argmin_fold(it, lid, changed, pre, head, head_terms, out) if (is_for and alive2) else {}
         for where, key in changed:
+            if (where, key) in coupled:
+                self._set_binding(out, where, key, coupled[(where, key)])
+                continue
             init = self._get_binding(pre, where, key)
             body_v = self._get_binding(head, where, key)
             if body_v is None or not alive2:
@@ -1049,6 +1055,8 @@ class Interp:
             cond_t = cterm.term if cterm is not None else iter_term
             if is_for and alive2:
                 asc = self._append_loop_as_comp(it, lid, init, head_terms.get((where, key)), body_v)
+                if asc is None:
+                    asc = self._fold_loop(it, lid, init, head_terms.get((where, key)), body_v, out)
                 if asc is not None:
                     self._set_binding(out, where, key, asc)
                     continue
@@ -1136,7 +1144,19 @@ class Interp:
         v = m(node, st)
         if v.kind == "unk":
             self.unknown_values += 1
+        elif v.kind in ("arr", "int", "float", "bool", "list") and isinstance(v.term, Term):
+            self.vtab[v.term] = v
         return v
+
+    def term_shape(self, t):
+        """shape oracle: the symbolic shape the term had when it was evaluated"""
+        v = self.vtab.get(t)
+        if v is None:
+            return None
+        sh = self.api.shape_of(v)
+        if sh is None or any(not d.known() for d in sh):
+            return None
+        return tuple(sh)
 
     def e_Constant(self, n, st):
         if n.value is Ellipsis:
@@ -1416,6 +1436,25 @@ class Interp:
         return self._mk_comp(it, lid, elt, [c.term for c in conds])
 
     def _mk_comp(self, it, lid, elt, cond_terms):
+        n = self.api.length_dim(self, it) if it is not None else None
+        if n is not None and n.known() and (it.kind != "range" or (it.extra is not None and it.extra[0] == Dim(0))) and it.kind in ("range", "arr", "enumerate", "zip", "list"):
+            lvt = T("lv", lid)
+            masks = [loops.vectorise(c, lvt, n, self.term_shape, self.api.dim_term) for c in cond_terms]
+            esh = self.api.shape_of(elt)
+            if all(m is not None for m in masks):
+                vt = None
+                if esh == ():
+                    vt = loops.vectorise(elt.term, lvt, n, self.term_shape, self.api.dim_term)
+                elif esh is not None:
+                    vt = loops.row_selection(elt.term, lvt, n, self.term_shape)
+                if vt is not None:
+                    if masks:
+                        term = T("getitem", vt, loops.conj(masks))
+                        shape = (Dim.unknown("sel"),) + tuple(esh)
+                    else:
+                        term = vt
+                        shape = (n,) + tuple(esh)
+                    return V("list", term, items=None, labels=it.labels | elt.labels, orig=frozenset([FRESH]), extra=("comp", elt, shape), loc=fresh_id())
         if not cond_terms and it.kind == "arr" and it.shape is not None and len(it.shape) == 1 and elt.shape == ():
             vt = _vectorise(elt.term, T("getitem", it.term, T("lv", lid)), it.term, T("lv", lid))
             if vt is not None:
@@ -1426,6 +1465,111 @@ class Interp:
         if elt.shape is not None:
             shape = ((n_items if n_items is not None else Dim.unknown("comp")),) + tuple(elt.shape)
         return V("list", term, items=None, labels=it.labels | elt.labels, orig=frozenset([FRESH]), extra=("comp", elt, shape), loc=fresh_id())
+
+    def _argmin_fold(self, it, lid, changed, pre, head, head_terms, st):
+        """best = b0; dmin = d0
+        for j in range(n):
+            if g(j) and e(j) < dmin: best = v(j); dmin = e(j)
+        is the first minimum of w = where(g, e, inf):  dmin = min(d0, min w),  best = v[argmin w] if min w < d0 else b0"""
+        if it is None:
+            return {}
+        n = self.api.length_dim(self, it)
+        if n is None or not n.known() or (it.kind == "range" and (it.extra is None or it.extra[0] != Dim(0))):
+            return {}
+        lvt = T("lv", lid)
+        vals = {}
+        for where, key in changed:
+            init = self._get_binding(pre, where, key)
+            body_v = self._get_binding(head, where, key)
+            ht = head_terms.get((where, key))
+            if body_v is not None and not loops.mentions_head(body_v.term, lid):
+                continue  # assigned afresh in every iteration (the loop variable, temporaries)
+            if init is None or body_v is None or ht is None or init.kind in ("undef", "maybe") or body_v.kind == "maybe":
+                return {}
+            t, conds = loops.split_guard(body_v.term, ht)
+            vals[(where, key)] = (init, body_v, ht, t, [c for cc in conds for c in loops.flatten_and(cc)])
+        # the running minimum: exactly one conjunct compares the new value with the carried one
+        dkey = None
+        for k, (init, body_v, ht, t, cj) in vals.items():
+            hits = [c for c in cj if isinstance(c, Term) and ((c.op == "lt" and c.args[0] == t and c.args[1] == ht) or (c.op == "gt" and c.args[1] == t and c.args[0] == ht))]
+            if len(hits) == 1 and not loops.mentions_head(t, lid):
+                dkey = k
+                guard = hits[0]
+        if dkey is None or len(vals) < 2:
+            return {}
+        init_d, body_d, ht_d, e, cj_d = vals[dkey]
+        others = [c for c in cj_d if c != guard]
+        if any(loops.mentions_head(c, lid) for c in others):
+            return {}
+        for k, (init, body_v, ht, t, cj) in vals.items():
+            if set(cj) != set(cj_d) or (k != dkey and loops.mentions_head(t, lid)):
+                return {}
+        dt = self.api.dim_term
+        e_vec = loops.vectorise(e, lvt, n, self.term_shape, dt)
+        masks = [loops.vectorise(c, lvt, n, self.term_shape, dt) for c in others]
+        if e_vec is None or any(m is None for m in masks):
+            return {}
+        inf = const("inf")
+        w = T("where3", loops.conj(masks), e_vec, inf) if masks else e_vec
+        wmin = T("amin", w)
+        found = T("lt", wmin, init_d.term)
+        out = {}
+        labels = frozenset().union(*[v[1].labels | v[0].labels for v in vals.values()]) | it.labels
+        for k, (init, body_v, ht, t, cj) in vals.items():
+            if k == dkey:
+                newt = T("phi", found, wmin, init.term)
+            else:
+                if t == lvt:
+                    sel = T("argmin", w)
+                else:
+                    v_vec = loops.vectorise(t, lvt, n, self.term_shape, dt)
+                    if v_vec is None:
+                        return {}
+                    sel = T("getitem", v_vec, T("argmin", w))
+                newt = T("phi", found, sel, init.term)
+            out[k] = body_v.replace(term=newt, labels=labels, has_const=False, const_=None, items=None, dim=None)
+        return out
+
+    def _fold_loop(self, it, lid, init, head_t, body_v, st):
+        """acc = init; for x in xs: [if c:] acc = acc (+|&|min|max) e   ==   init (op) reduce(e over xs [where c])
+        when neither e nor c reads a loop-carried value"""
+        if it is None or init is None or body_v is None or head_t is None or init.kind in ("undef", "list", "dict", "obj"):
+            return None
+        t, conds = loops.split_guard(body_v.term, head_t)
+        if not isinstance(t, Term) or t.op not in loops.FOLDS or len(t.args) != 2:
+            return None
+        if t.args[0] == head_t:
+            e = t.args[1]
+        elif t.args[1] == head_t:
+            e = t.args[0]
+        else:
+            return None
+        if loops.mentions_head(e, lid) or any(loops.mentions_head(c, lid) for c in conds) or loops.mentions_head(init.term, lid):
+            return None
+        ev = self.vtab.get(e)
+        if ev is None or self.api.shape_of(ev) is None:
+            return None
+        cid = "C" + lid[1:]
+        m = {T("lv", lid): T("lv", cid)}
+        elt = ev.replace(term=subst_term(e, m))
+        comp = self._mk_comp(it, cid, elt, [subst_term(c, m) for c in conds])
+        if comp.term.op == "comp":
+            return None  # not vectorisable: keep the loop form
+        red = loops.FOLDS[t.op]
+        scalar_elems = self.api.shape_of(elt) == ()
+        carr = self.api.as_arr(comp)
+        kw = {} if scalar_elems else {"axis": vconst(0)}
+        if red == "sum":
+            r = self.api.NP["numpy.sum"](self, "numpy.sum", [carr], kw, st, None)
+        else:
+            fn = {"any": "numpy.any", "all": "numpy.all", "amin": "numpy.min", "amax": "numpy.max"}[red]
+            r = self.api.NP[fn](self, fn, [carr], kw, st, None)
+        # the neutral initial value drops out
+        if (t.op == "add" and init.has_const and init.const == 0) or (t.op == "bitor" and init.term.op == "full" and init.term.args[0] == const(False)) or (t.op == "bitor" and init.has_const and init.const is False):
+            res = r
+        else:
+            res = self.api.binop(self, t.op, init, r, st, None)
+        return res
 
     def _append_loop_as_comp(self, it, lid, init, head_t, body_v):
         """L = []; for x in xs: [if c:] L.append(e)   ==   [e for x in xs [if c]]
